@@ -191,7 +191,7 @@ func (v *ClusterRoleBackedValidator) ValidatePermissionRequests(ctx context.Cont
 	}
 
 	t := newNode()
-	expandedCrRules, err := Expand(ctx, cr.Rules...)
+	expandedCrRules, err := Expand(ctx, withoutLiteralWildcardNames(cr.Rules)...)
 	if err != nil {
 		return nil, errors.Wrap(err, errExpandClusterRoleRules)
 	}
@@ -211,6 +211,37 @@ func (v *ClusterRoleBackedValidator) ValidatePermissionRequests(ctx context.Cont
 	}
 
 	return rejected, nil
+}
+
+// withoutLiteralWildcardNames returns the supplied rules without any resource
+// name that is literally '*'. RBAC has no wildcard for resource names - a
+// resource name of '*' only allows access to a resource that is literally named
+// '*'. Our granular rules use '*' to represent 'all resource names', so we must
+// not let a ClusterRole's literal '*' resource name allow a request for all
+// resource names. Rules that name only '*' no longer allow any resource.
+func withoutLiteralWildcardNames(rules []rbacv1.PolicyRule) []rbacv1.PolicyRule {
+	out := make([]rbacv1.PolicyRule, 0, len(rules))
+	for _, r := range rules {
+		if len(r.ResourceNames) == 0 {
+			out = append(out, r)
+			continue
+		}
+		names := make([]string, 0, len(r.ResourceNames))
+		for _, n := range r.ResourceNames {
+			if n != wildcard {
+				names = append(names, n)
+			}
+		}
+		if len(names) == 0 {
+			// No names left; an empty list would mean all names. This rule
+			// can still allow non-resource URLs.
+			r.APIGroups = nil
+			r.Resources = nil
+		}
+		r.ResourceNames = names
+		out = append(out, r)
+	}
+	return out
 }
 
 // VerySecureValidator is a PermissionRequestsValidatorFn that rejects all
